@@ -321,3 +321,35 @@ func ruleCloneContract(rule string) func(p *Prog, r *Result) {
 		})
 	}
 }
+
+// queryMethods: methods that answer a question about their receiver. Confirmed by reading: none of them
+// stores into the receiver today. A cache added to one of them (memoised ancestors, a lazily built index)
+// is hidden state that every writer of the underlying fields would have to invalidate — mergeDocs, for one,
+// appends to Document.Parents directly.
+var queryMethods = []string{
+	"bkl.(*Document).AllParents", "bkl.(*Document).Clone", "bkl.(*Document).DataAsMap", "bkl.(*Document).String",
+	"bkl.(*EvalContext).Clone", "bkl.(*EvalContext).GetVar",
+	// (*file).parents / parentsFromSymlink are not queries: following a symlink rewrites f.path to the target
+	"bkl.(*file).parentsFromFilename", "bkl.(*file).toAbsolutePaths", "bkl.(*file).String",
+	"bkl.(*Parser).parents", "bkl.(*Parser).findMatches", "bkl.(*Parser).Documents",
+}
+
+// ruleQueryMethods(rule): query methods do not modify their receiver.
+func ruleQueryMethods(rule string) func(p *Prog, r *Result) {
+	return func(p *Prog, r *Result) {
+		own := p.Own()
+		n := 0
+		for _, name := range queryMethods {
+			if !p.HasFunc(name) {
+				r.Undecided(rule, name, "", "query method not found (renamed or removed: update the table)")
+				continue
+			}
+			fn := p.Func(name)
+			n++
+			mut, why := own.Mut(fn, 0)
+			r.Check(!mut, rule, name+" / does not modify its receiver", p.Pos(fn.Pos()), "no store reachable from it targets the receiver or anything hanging off it",
+				"a query method writes into its receiver ("+why+"): the answer is cached in the object, and stays stale when the fields it was computed from change behind its back (merge targets are appended to Parents directly; documents are shared between layers)")
+		}
+		r.Floor(rule, "query methods", n, 10)
+	}
+}
